@@ -5,4 +5,5 @@ CONSTANTS
   QIntMax <- tr_QIntMax
   QDigits <- tr_QDigits
   CullBatch = 10
+  DjDev <- tr_NoDjDev
 CHECK_DEADLOCK FALSE
